@@ -270,6 +270,7 @@ class BMSMap(Map[BMSNoteList, BMSHitList, BMSHoldList, BMSBpmList], BMSMapMeta):
         ]
         hits = [[] for _ in range(MAX_KEYS)]
         holds = [[] for _ in range(MAX_KEYS)]
+        objs = [[] for _ in range(MAX_KEYS)]
         time_sig = {}
 
         # The time_sig channel call does not sustain for more than 1 measure.
@@ -318,28 +319,28 @@ class BMSMap(Map[BMSNoteList, BMSHitList, BMSHoldList, BMSBpmList], BMSMapMeta):
                         )
                     elif channel in config.keys():
                         column = int(config[channel])
+                        objs[column].append((Snap(measure, beat, None), pair))
 
-                        if pair == self.ln_end_channel:
-                            try:
-                                # Yield LN Head from Hits
-                                prev_hit = hits[column].pop(-1)
-                                holds[column].append(
-                                    Hold(
-                                        hit=prev_hit,
-                                        sample=prev_hit.sample,
-                                        snap=Snap(measure, beat, None),
-                                    )
-                                )
-                            except IndexError:
-                                raise Exception(
-                                    f"Failed to match LN Tail on " f"Column {column}."
-                                )
-                        else:
-                            # Else it's a note
-                            sample = self.samples.get(pair, b"")
-                            hits[column].append(
-                                Hit(sample=sample, snap=Snap(measure, beat, None))
-                            )
+        # Lines can come in any order and a measure/channel can be split over
+        # several lines, so LN tails are only matched once each column is in
+        # time order. The sort is stable: in-order files keep their row order.
+        for column, objs_col in enumerate(objs):
+            for snap, pair in sorted(objs_col, key=lambda x: x[0]):
+                if pair == self.ln_end_channel:
+                    try:
+                        # Yield LN Head from Hits
+                        prev_hit = hits[column].pop(-1)
+                        holds[column].append(
+                            Hold(hit=prev_hit, sample=prev_hit.sample, snap=snap)
+                        )
+                    except IndexError:
+                        raise Exception(
+                            f"Failed to match LN Tail on " f"Column {column}."
+                        )
+                else:
+                    # Else it's a note
+                    sample = self.samples.get(pair, b"")
+                    hits[column].append(Hit(sample=sample, snap=snap))
         #
         # measures = [*time_sig.keys(), -1]
         # for measure0, measure1 in zip(measures[:-1], measures[1:]):
